@@ -78,6 +78,10 @@ def generate(seed: int, tier: str) -> Dict[str, Any]:
                     "fault": ro.weighted([(None, 6), ("reflect", 1), ("index_add", 1), ("index_missing", 1), ("telemetry", 1), ("fixture_missing", 2), ("fixture_gone", 1), ("fixture_torn", 1)]),
                     "exc": ro.choice(sorted(EXC_TYPES)), "completion": ro.choice(COMPLETIONS), "prior_read": ro.chance(0.5),
                     "overproduce": ro.choice([0, 0, 0, 2, 3, 7])})
+    if ro.chance(0.3):
+        # one context object kept by the driver across turns
+        for o in ops[1:]:
+            o["reuse_ctx"] = True
     if backend == "llm" and ro.chance(0.5):
         # the same prompt twice (same agent, turn id and text): answered once, then the record vanishes from the file at the same path
         src = dict(ro.choice(ops))
